@@ -589,6 +589,18 @@ func c06Judge(w *World, before, after, partial *Model, callErr error, panicked b
 		return "violation"
 	}
 	if stale := d.staleEntries(files.objs); len(stale) > 0 {
+		// the listed finding concerns objects the faulted call was updating; a stale tuple of an
+		// object this call leaves alone (synchronous mode: earlier calls have committed) is the
+		// trace of an acknowledged call that never committed its index
+		if w.cfg.Async == 0 {
+			for _, u := range stale {
+				b, a := before.objs[u], after.objs[u]
+				if b != nil && a != nil && canonJSON(b) == canonJSON(a) {
+					add("acknowledged-index-update-lost", fmt.Sprintf("object %s is not changed by the faulted call, yet schema.json indexes it under another value than its file holds", short(u)))
+					return "violation"
+				}
+			}
+		}
 		op.kind = "update-window"
 	}
 	if !reported {
